@@ -63,7 +63,10 @@ class ControlledExecutor(Executor):
         pi, sigma = self.pick(n, len(self.batches))
         self.batches.append((n, tuple(pi), tuple(sigma)))
         outs = {}
+        live = {i for i in range(n) if batch[i][0].set_running_or_notify_cancel()}  # cancelled before release: skipped
         for i in pi:
+            if i not in live:
+                continue
             f, fn, a, k = batch[i]
             try:
                 outs[i] = (True, fn(*a, **k))
@@ -72,6 +75,8 @@ class ControlledExecutor(Executor):
         with self._lock:
             self._releasing = False
         for i in sigma:
+            if i not in live:
+                continue
             f = batch[i][0]
             ok, val = outs[i]
             if ok:
